@@ -44,6 +44,44 @@ def _par(ctx, jobs):
     return res
 
 
+# vacuity: what the emitted histories must exercise (event kinds; result classes per call kind)
+NEED_EVENTS = {"dial", "cancel", "greq", "hreg", "accept", "reject", "write", "read", "closewrite", "closeconn", "cclose", "wait",
+               "confirm", "fail", "data", "eof", "close", "adj", "creq", "popen", "pgreq", "greply", "peereof", "garbage", "disc",
+               "race", "greq2"}
+NEED_RESULTS = {"dial": {"conn", "rejected", "err", "ctxerr/1", "ctxerr/2"}, "greq": {"true", "false", "ok", "err"},
+                "greq2": {"true", "false", "err"}, "hreg": {"chan", "nil", "closed"}, "accept": {"ok", "err"}, "reject": {"ok", "err"},
+                "write": {"ok", "eof"}, "read": {"data", "eof"}, "closewrite": {"nil", "eof"}, "closeconn": {"nil", "eof"},
+                "cclose": {"returned"}, "wait": {"err"}}
+
+
+def coverage_of(ctx, cases):
+    """Event kinds and result classes exercised by the histories that were replayed (rule 8: no vacuous pass)."""
+    evs, results, alts, idle = set(), {}, 0, 0
+    # call numbering: the preamble's calls come first
+    pre = {"empty": [], "conn": ["dial"], "pend": ["dial"], "hreg": ["hreg"], "two": ["dial", "dial"]}
+    for c in cases:
+        kinds = list(pre[c["cfg"]])
+        for st in c["steps"]:
+            evs.add(st["ev"]["k"])
+            alts += 1 if st["alt"]["on"] else 0
+            idle += 1 if st["idle"] else 0
+            if st["ev"]["k"] in NEED_RESULTS:
+                kinds.append(st["ev"]["k"])
+            for d in st["done"] + ([] if st is not c["steps"][-1] else c["final"]["done"]):
+                k = kinds[d[0] - 1] if 0 < d[0] <= len(kinds) else "?"
+                r = d[1]["c"] + ("/%d" % d[1]["x"] if d[1]["c"] == "ctxerr" else "")
+                results.setdefault(k, set()).add(r)
+    missing = sorted(NEED_EVENTS - evs) + sorted("%s->%s" % (k, r) for k, need in NEED_RESULTS.items() for r in need - results.get(k, set()))
+    ctx.extra["covered_event_kinds"] = sorted(evs)
+    ctx.extra["covered_results"] = {k: sorted(v) for k, v in sorted(results.items())}
+    ctx.extra["race_steps_replayed"] = alts
+    ctx.extra["idle_points_with_goroutine_count"] = idle
+    if missing and ctx.thorough:
+        raise vlib.Infra("vacuity: the replayed histories never exercise %s" % ", ".join(missing))
+    if missing:
+        ctx.notes.append("not exercised at this tier: %s" % ", ".join(missing))
+
+
 def run(ctx):
     ctx.level = "model_checking"
     ctx.rule = ("cases = histories emitted by TLC from SSHClientLife (one per model transition out of every distinct abstract client "
@@ -78,7 +116,7 @@ def run(ctx):
 
     q = not ctx.thorough
     mcs = ["Q", "QLite"] if q else ["T", "TLite", "TDeep", "TConn"]
-    gens = [("GenQ", None, None)] if q else [("GenT", None, None), ("GenLite", None, None), ("GenConn", None, None)]
+    gens = [("GenQ", None, None), ("GenQConn", None, None)] if q else [("GenTa", None, None), ("GenTb", None, None), ("GenLite", None, None), ("GenConn", None, None)]
     gens.append(("Sim", ctx.pick(40, 400), 14))       # in simulation mode every candidate successor that ends a history is printed
 
     def mc(name):
@@ -100,12 +138,7 @@ def run(ctx):
     tp = ctx.tmp("x04_traces.ndjson")
 
     def long_sessions():
-        return ctx.go_test("x04", "TestLong$", env={"VERIF_TRACE_OUT": tp, "VERIF_X04_LONG": ctx.pick(60, 1500)}, timeout=1500)
-
-    jobs = [("long", long_sessions), ("small", small)] + [("gen:" + g[0], gen(*g)) for g in gens]
-    if q:
-        jobs += [("mc:" + m, mc(m)) for m in mcs]
-    res = _par(ctx, jobs)
+        return ctx.go_test("x04", "TestLong$", env={"VERIF_TRACE_OUT": tp, "VERIF_X04_LONG": ctx.pick(60, 900)}, timeout=1500)
 
     def big_mcs():
         for m in mcs:
@@ -115,6 +148,28 @@ def run(ctx):
         if not r.violated or not r.violated.startswith("L2"):
             raise vlib.Infra("SSHClientLife_Leak.cfg (CloseLate=FALSE) should violate L2, TLC says %r" % r.violated)
         ctx.notes.append("SSHClientLife_Leak.cfg (a late-confirmed channel is not closed): TLC reports violation of %s" % r.violated)
+
+    res = {}
+    mc_err = []
+    mc_thread = None
+    if not q:
+        # thorough: the big model-checking runs one after the other, next to everything else
+        def mc_main():
+            try:
+                big_mcs()
+            except Exception as e:      # noqa
+                mc_err.append(e)
+        mc_thread = threading.Thread(target=mc_main)
+        mc_thread.start()
+    jobs = [("long", long_sessions), ("small", small)] + [("gen:" + g[0], gen(*g)) for g in gens]
+    if q:
+        jobs += [("mc:" + m, mc(m)) for m in mcs]
+    try:
+        res.update(_par(ctx, jobs))
+    except Exception:
+        if mc_thread:
+            mc_thread.join()
+        raise
 
     def log_mcs():
         for m in mcs:
@@ -130,7 +185,7 @@ def run(ctx):
             raise vlib.Infra("generator %s produced no histories" % g[0])
         ctx.log("%s: %d histories (%.0fs)" % (g[0], len(r.traces), r.wall))
         tr = r.traces
-        cap = ctx.pick(7000 if g[0] != "Sim" else 2500, 10 ** 9 if g[0] != "Sim" else 25000)
+        cap = ctx.pick({"GenQ": 5000, "GenQConn": 3000, "Sim": 1500}.get(g[0], 5000), 25000 if g[0] == "Sim" else 10 ** 9)
         if len(tr) > cap:               # seeded sample of the witnesses
             random.Random(ctx.seed * 7919 + len(tr)).shuffle(tr)
             tr = tr[:cap]
@@ -154,12 +209,28 @@ def run(ctx):
     def replay():
         return ctx.go_test("x04", "TestReplay$", cases=cases, timeout=2400, env={"VERIF_X04_PAR": ctx.pick(4, 8)})
 
-    def validate():
-        for i in range(0, len(traces), 150):
-            ctx.validate_traces("SSHClientLife_Trace", traces[i:i + 150], timeout=1200, max_rejects=3)
+    chunks = [traces[i:i + 100] for i in range(0, len(traces), 100)]
 
-    res2 = _par(ctx, [("replay", replay), ("validate", validate)] + ([] if q else [("mcs", big_mcs)]))
+    def validate(k, n):
+        def f():
+            for c in chunks[k::n]:
+                ctx.validate_traces("SSHClientLife_Trace", c, timeout=1200, max_rejects=3)
+        return f
+
+    nval = ctx.pick(1, 3)
+    try:
+        res2 = _par(ctx, [("replay", replay)] + [("validate%d" % k, validate(k, nval)) for k in range(nval)])
+    finally:
+        if mc_thread:
+            mc_thread.join()
+    if mc_err:
+        raise mc_err[0]
+    coverage_of(ctx, cases)
     log_mcs()
     ctx.absorb(res2["replay"])
+    aborted = (res_l.get("extra") or {}).get("long_sessions_aborted") or []
+    if aborted and not ctx.violations:
+        # the driver could not perform an event it believed possible, and the specification explains everything recorded
+        raise vlib.Infra("x04 long-session driver and harness disagree: %s" % "; ".join(aborted[:3]))
     ctx.extra["recorded_long_sessions"] = len(traces)
     ctx.exhaustive = False
